@@ -766,6 +766,8 @@ TYPED = [
         ("core_disp_in_h", "iv_fd_poll_and_run", ("cond", "if", 5), {}),
         ("core_disp_out", "iv_fd_poll_and_run", ("cond", "if", 6), {}),
         ("core_disp_out_h", "iv_fd_poll_and_run", ("cond", "if", 7), {}),
+        ("core_disp_more", "iv_fd_poll_and_run", ("cond", "while", 0), {}),
+        ("core_ready_fresh", "iv_fd_make_ready", ("cond", "if", 0), {}),
         ("core_ready_reset", "iv_fd_make_ready", ("stmt", "fd->ready_bands", 0), {}),
         ("core_ready_or", "iv_fd_make_ready", ("stmt", "fd->ready_bands", 1), {}),
     ]),
@@ -783,6 +785,7 @@ TYPED = [
         ("core_main_rt_init", "iv_main", ("stmt", "run_timers", 0), {}),
         ("core_main_rt_test", "iv_main", ("cond", "if", 0), {}),
         ("core_main_exit_test", "iv_main", ("cond", "if", 1), {}),
+        ("core_main_tasks_pending", "iv_main", ("cond", "if", 2), {}),
         ("core_main_zero_sec", "iv_main", ("stmt", "_abs.tv_sec", 0), {}),
         ("core_main_zero_nsec", "iv_main", ("stmt", "_abs.tv_nsec", 0), {}),
     ]),
@@ -799,11 +802,30 @@ TYPED = [
         ("core_et_failed", "iv_fd_epoll_timerfd_poll", ("cond", "if", 0), {}),
         ("core_et_rt_set", "iv_fd_epoll_timerfd_poll", ("stmt", "run_timers", 1), {}),
         ("core_notify_changed", "iv_fd_epoll_notify_fd", ("cond", "if", 0), {}),
+        ("core_unreg_flush", "iv_fd_epoll_unregister_fd", ("cond", "if", 0), {}),
+        ("core_flush_more", "iv_fd_epoll_flush_pending", ("cond", "while", 0), {}),
         ("core_flush_unchanged", "__iv_fd_epoll_flush_one", ("cond", "if", 0), {}),
         ("core_flush_add", "__iv_fd_epoll_flush_one", ("cond", "if", 1), {}),
         ("core_flush_del", "__iv_fd_epoll_flush_one", ("cond", "if", 2), {}),
         ("core_flush_ok", "__iv_fd_epoll_flush_one", ("cond", "if", 3), {}),
         ("core_flush_regb", "__iv_fd_epoll_flush_one", ("stmt", "fd->registered_bands", 0), {}),
+    ]),
+    ("LeafCoreEvent.v", "iv_event.c", [
+        ("core_evp_unqueued", "iv_event_post", ("cond", "if", 0), {}),
+        ("core_evp_first", "iv_event_post", ("cond", "if", 1), {}),
+        ("core_evp_post_init", "iv_event_post", ("stmt", "post", 0), {}),
+        ("core_evp_post_set", "iv_event_post", ("stmt", "post", 1), {}),
+        ("core_evp_post_test", "iv_event_post", ("cond", "if", 2), {}),
+        ("core_evp_same_thread", "iv_event_post", ("cond", "if", 3), {}),
+        ("core_evp_need_task", "iv_event_post", ("cond", "if", 4), {}),
+        ("core_evp_use_raw", "iv_event_post", ("cond", "if", 5), {}),
+        ("core_evrun_nothing", "__iv_event_run_pending_events", ("cond", "if", 0), {}),
+        ("core_evrun_last", "__iv_event_run_pending_events", ("cond", "if", 1), {}),
+    ]),
+    ("LeafCoreLists.v", "iv_task.c", [
+        ("core_run_tasks_more", "iv_run_tasks", ("cond", "while", 0), {}),
+        ("core_task_reg_misuse", "iv_task_register", ("cond", "if", 0), {}),
+        ("core_task_unreg_misuse", "iv_task_unregister", ("cond", "if", 0), {}),
     ]),
     ("LeafCorePoll.v", "iv_fd_poll.c", [
         ("core_po_more", "iv_fd_poll_activate_fds", ("cond", "for", 0), {}),
@@ -816,6 +838,10 @@ TYPED = [
         ("core_pn_mod", "iv_fd_poll_notify_fd", ("cond", "if", 3), {}),
     ]),
 ]
+
+# pure predicates over state that is not an integer of the translated text (intrusive lists): inside a controlling
+# expression a call of one of these is a parameter of the translated test (see CTr.opaque_predicate)
+OPAQUE_PREDICATES = {"iv_list_empty", "iv_task_registered", "iv_timer_registered", "iv_pending_tasks", "iv_pending_timers"}
 
 _QUAL = re.compile(r"\b(const|volatile|restrict|__restrict)\b")
 _AST_CACHE = {}
@@ -1329,8 +1355,33 @@ class CTr:
             raise Unsupported("indirect call")
         return c["referencedDecl"]["name"]
 
+    def opaque_predicate(self, fn, n, env):
+        """a call of one of OPAQUE_PREDICATES inside a controlling expression: the list / registration state it inspects is
+        not an integer of the translated text, so its result (an int, 0 or not) becomes a parameter named after the function
+        and its argument; what the model says about that state is the business of the link lemma"""
+        if not self.no_effects:
+            raise Unsupported("call of %s outside a controlling expression" % fn)
+        args = n["inner"][1:]
+        if len(args) != 1:
+            raise Unsupported("call of %s with %d arguments" % (fn, len(args)))
+        a = self.skip(args[0])
+        while a.get("kind") in ("ImplicitCastExpr", "CStyleCastExpr") and a.get("castKind") in ("NoOp", "BitCast"):
+            a = self.skip(a["inner"][0])
+        if a.get("kind") == "UnaryOperator" and a.get("opcode") == "&":
+            name, text, _ = self.lv(self.skip(a["inner"][0]), env, check=False)
+            text = "&" + text
+        else:
+            pl = self.ptr_lvalue(a)
+            if pl is None:
+                raise Unsupported("argument of %s that is neither &lvalue nor a pointer variable" % fn)
+            name, text, _ = self.lv(pl, env, check=False)
+        pname = "%s_%s" % (fn.lstrip("_"), name)
+        return V(self.param(pname, "%s(%s)" % (fn, text), "int", C_INT, None, pname), C_INT)
+
     def call(self, n, env):
         fn = self.callee_name(n)
+        if fn in OPAQUE_PREDICATES and fn not in self.known:
+            return self.opaque_predicate(fn, n, env)
         if fn not in self.known:
             raise Unsupported("call of %s (not a translated function of this file)" % fn)
         info = self.known[fn]
